@@ -1,5 +1,6 @@
 import Tmv.Drv.Core
 import Tmv.Model.Sign
+import Tmv.Model.Cons
 /-! Line-protocol driver for C04 (file signer with crash points). The signature scheme is
 instantiated with the ideal one: a signature *is* the content it signs (`Sig := SB`, `sigOf := id`);
 the Go side maps real ed25519 signatures to the content they verify for. -/
@@ -92,9 +93,72 @@ def nodeOpOK (rest : List String) : Bool :=
     | [sys, n] => ["write", "fsync", "fdatasync", "renameat", "openat"].contains sys && natOK n
     | _ => false) && truncs.all natOK
 
-abbrev σ := Cfg SB
+/-! ### replay of WAL records through the consensus model (node rig: round state after
+`catchupReplay` vs the model). Same state line as the C02 driver, without the queue length. -/
+section Replay
+open Tmv.Cons
 
-def step (c : σ) (toks : List String) : σ × String :=
+def rStepName : Step → String
+  | .newHeight => "newHeight" | .newRound => "newRound" | .propose => "propose"
+  | .prevote => "prevote" | .prevoteWait => "prevoteWait" | .precommit => "precommit"
+  | .precommitWait => "precommitWait" | .commit => "commit"
+
+def rParseStep (s : String) : Option Step :=
+  [Step.newHeight, .newRound, .propose, .prevote, .prevoteWait, .precommit, .precommitWait, .commit].find?
+    (fun x => rStepName x = s)
+
+def rShowBid : Bid → String
+  | none => "nil"
+  | some b => toString b
+
+def rParseBid (s : String) : Option Bid :=
+  if s = "nil" then some none else s.toNat?.map some
+
+def rShowOB : Option Nat → String
+  | none => "-"
+  | some b => toString b
+
+def rShowVS (ids : Nat) (vs : VoteSet) : String :=
+  let keys : List Bid := none :: (List.range ids).map some
+  let buckets := keys.filterMap fun k =>
+    let x := vs.blockSum k
+    if x = 0 then none else some s!"{rShowBid k}={x}"
+  let m := match vs.maj23 with | none => "-" | some b => rShowBid b
+  s!"{vs.sum}/{m}/" ++ (if buckets.isEmpty then "-" else "+".intercalate buckets)
+
+def rShowHV (ids : Nat) (h : HVS) : String :=
+  let rounds : List Int := (List.range 42).map fun (i : Nat) => (i : Int) - 1
+  ",".intercalate (rounds.filterMap fun r =>
+    (h.getRound r).map fun rvs => s!"{r}:P{rShowVS ids rvs.prevotes}:C{rShowVS ids rvs.precommits}")
+
+def rShowState (c : Cons.Cfg) (ids : Nat) (s : NodeState) : String :=
+  if s.halted then "halted" else
+  match s.decided with
+  | some (b, r) => s!"decided {b}@{r}"
+  | none =>
+    let prop := match s.proposal with
+      | none => "-"
+      | some p => s!"{p.bid}/{p.pol}"
+    s!"r={s.round} s={rStepName s.step} lr={s.lockedRound} lb={rShowOB s.lockedBlock} " ++
+    s!"vr={s.validRound} vb={rShowOB s.validBlock} prop={prop} pb={rShowOB s.proposalBlock} " ++
+    s!"pp={rShowOB s.proposalParts}/{if s.partsDone then 1 else 0} cr={s.commitRound} " ++
+    s!"tp={if s.triggered then 1 else 0} pr={c.proposer s.valRound} " ++
+    s!"hr={s.votes.round} hv={rShowHV ids s.votes}"
+
+/-- single validator of the given power proposing block `own`; the signer answers everything
+(during replay the real one refuses or reuses; the round state does not depend on its answer) -/
+def rCfg (power own : Nat) : Cons.Cfg :=
+  { n := 1, power := fun _ => power, self := some 0, proposer := fun _ => 0, valid := fun _ => true,
+    ownBlock := own, waitForTxs := false, needProofBlock := false, emptyInterval := false, checkHRS := false }
+
+end Replay
+
+structure σ where
+  sg : Cfg SB
+  rc : Option (Cons.Cfg × Nat)    -- replay configuration, number of block ids shown
+  rs : Cons.NodeState
+
+def stepSign (c : Cfg SB) (toks : List String) : Cfg SB × String :=
   match toks with
   | "load" :: rest =>
     match (kv rest "h").bind String.toInt?, (kv rest "r").bind String.toInt?, (kv rest "s").bind String.toInt?,
@@ -125,7 +189,48 @@ def step (c : σ) (toks : List String) : σ × String :=
   | ["state"] => (c, s!"disk={showLSS c.disk} mem={showLSS c.mem}")
   | _ => (c, "bad-op")
 
-def machine : Machine := { σ := σ, init := Sign.init Sign.genesis, step := step }
+/-- replay ops: one WAL record each, handled the way `catchupReplay` does (`handleTimeout` /
+`handleMsg` on the record, the internal queue is not drained) -/
+def stepReplay (st : σ) (toks : List String) : Option (σ × String) :=
+  match toks with
+  | "rcfg" :: rest =>
+    match (kv rest "power").bind String.toNat?, (kv rest "own").bind String.toNat?, (kv rest "ids").bind String.toNat? with
+    | some p, some o, some ids => some ({ st with rc := some (rCfg p o, ids), rs := .init }, "ok")
+    | _, _, _ => some (st, "bad-op")
+  | op :: rest =>
+    if !["rtimeout", "rprop", "rpart", "rvote", "rstate"].contains op then none else
+    match st.rc with
+    | none => some (st, "bad-op")
+    | some (c, ids) =>
+      let fin (s : Cons.NodeState) : Option (σ × String) := some ({ st with rs := s }, rShowState c ids s)
+      if st.rs.halted ∨ st.rs.decided.isSome then fin st.rs else
+      match op with
+      | "rtimeout" =>
+        match (kv rest "r").bind String.toNat?, (kv rest "s").bind rParseStep with
+        | some r, some stp => fin (Cons.handleTimeout c st.rs r stp)
+        | _, _ => some (st, "bad-op")
+      | "rprop" =>
+        match (kv rest "r").bind String.toNat?, (kv rest "b").bind String.toNat?, (kv rest "pol").bind String.toInt? with
+        | some r, some b, some pol => fin (Cons.handleInternal c st.rs (.proposal { round := r, bid := b, pol := pol, signer := 0 }))
+        | _, _, _ => some (st, "bad-op")
+      | "rpart" =>
+        match (kv rest "b").bind String.toNat? with
+        | some b => fin (Cons.handleInternal c st.rs (.part b))
+        | none => some (st, "bad-op")
+      | "rvote" =>
+        match kv rest "t", (kv rest "r").bind String.toNat?, (kv rest "b").bind rParseBid with
+        | some "pv", some r, some b => fin (Cons.handleInternal c st.rs (.vote ⟨.prevote, r, b, 0, true, 0, 0⟩))
+        | some "pc", some r, some b => fin (Cons.handleInternal c st.rs (.vote ⟨.precommit, r, b, 0, true, 0, 0⟩))
+        | _, _, _ => some (st, "bad-op")
+      | _ => fin st.rs
+  | [] => none
+
+def step (st : σ) (toks : List String) : σ × String :=
+  match stepReplay st toks with
+  | some r => r
+  | none => let r := stepSign st.sg toks; ({ st with sg := r.1 }, r.2)
+
+def machine : Machine := { σ := σ, init := ⟨Sign.init Sign.genesis, none, .init⟩, step := step }
 
 end Tmv.Drv.C04
 
